@@ -24,10 +24,42 @@ from ..srcmodel import repo_root
 
 def load_corpus():
     from . import mutants
-    return mutants.CORPUS
+    return list(mutants.CORPUS) + seeded_corpus()
+
+
+def seeded_corpus():
+    """changes written by independent sub-agents, kept under /verif/seeded:
+    breaking changes (must be detected by the property's own check) and
+    behaviour-preserving refactorings (must stay silent)"""
+    out = []
+    base = os.path.join(VERIF, 'seeded')
+    if not os.path.isdir(base):
+        return out
+    for d in sorted(os.listdir(base)):
+        mp = os.path.join(base, d, 'meta.json')
+        pp = os.path.join(base, d, 'patch.diff')
+        if not (os.path.exists(mp) and os.path.exists(pp)):
+            continue
+        with open(mp) as fh:
+            meta = json.load(fh)
+        if meta.get('kind') == 'neutral':
+            for prop in meta.get('run_against', [meta['property']]):
+                out.append({'id': '{}@{}'.format(d, prop), 'prop': prop,
+                            'patch': pp, 'kind': 'neutral'})
+        else:
+            out.append({'id': d, 'prop': meta['breaks_property'],
+                        'patch': pp, 'kind': 'mutant', 'expect': None})
+    return out
 
 
 def _apply(root, m):
+    if m.get('patch'):
+        p = subprocess.run(['patch', '-p1', '-s', '-f', '-d', root, '-i',
+                            m['patch']], capture_output=True, text=True)
+        if p.returncode != 0:
+            return 'stale: patch does not apply: ' + (p.stdout +
+                                                      p.stderr)[:200]
+        return None
     edits = m.get('edits') or [(m['file'], m['old'], m['new'])]
     for (rel, old, new) in edits:
         path = os.path.join(root, rel)
